@@ -1,4 +1,4 @@
-//@props C13 C14
+//@props C13 C14 C03
 //@hoist-closure-patterns :: closure parameter patterns hoisted into a let (Verus accepts only variables as closure parameters)
 //@rewrite `let [x, y, z] =` => `let __wg =` :: slice patterns are not supported by Verus: the array is bound to __wg and destructured by prelude::take3 in an inserted `let (x, y, z) = take3(__wg);`
 //@rewrite `.filter_map(` => `.shim_filter_map(` :: provided trait method Iterator::filter_map: stand-in with the std meaning (spec/lib/iter_shims.rs)
@@ -139,7 +139,7 @@ fn workgroup_size(e: &naga::EntryPoint) -> «(r:» TokenStream«)
 }
 //@end
 
-//@fn lib.rs::push_constant_range_stages props=C13
+//@fn lib.rs::push_constant_range_stages props=C13,C03
 fn push_constant_range_stages(
     module: &naga::Module,
     global_stages: &BTreeMap<String, wgpu::ShaderStages>,
@@ -149,7 +149,7 @@ fn push_constant_range_stages(
         globals_wf(module), // [C13.pre] type handles of globals are in range (naga invariant)
         stage_map_ok(global_stages@), entry_stages.bits < 8,
     ensures
-        pc_post(module, global_stages@, entry_stages.bits, r), // [C13.range] None iff no push constant variable; else, for the first one: range 0..(WGSL size of its type) with stages PUSH_CONSTANT_STAGES, and the stage expression = stages using it, or all entry stages when nothing uses it»
+        pc_post(module, global_stages@, entry_stages.bits, r), // [C13.range] [C03.push-constant-stages] None iff no push constant variable; else, for the first one: range 0..(WGSL size of its type) with stages PUSH_CONSTANT_STAGES, and the stage expression = stages using it, or all entry stages when nothing uses it»
 {
     «broadcast use axiom_arena_index_req, axiom_uarena_index_req, vstd::laws_cmp::group_laws_cmp, vstd::std_specs::btree::group_btree_axioms, axiom_string_obeys_cmp;
     // Assume only one variable is used with var<push_constant> in WGSL.
